@@ -163,8 +163,15 @@ int main(int argc, char** argv) {
             tt.insert(key, mv, TType::T_EXACT, p, 5, 0);
             TranspositionTable::TTEntry ent;
             tt.probe(key, ent);
+            // the search re-stores an entry it is about to work on with the busy flag set, at whatever ply the node has there:
+            // the stored score must survive that unchanged
+            int busy = rnd.nextInt(3);
+            for (int b = 0; b < busy && ent.getType() != TType::T_EMPTY; b++) {
+                tt.setBusy(ent, rnd.nextInt(120));
+                tt.probe(key, ent);
+            }
             bool hit = ent.getType() != TType::T_EMPTY;
-            os << "{\"e\":\"Shift\",\"score\":" << score << ",\"p\":" << p << ",\"q\":" << q << ",\"hit\":" << (hit ? "true" : "false")
+            os << "{\"e\":\"Shift\",\"busy\":" << busy << ",\"score\":" << score << ",\"p\":" << p << ",\"q\":" << q << ",\"hit\":" << (hit ? "true" : "false")
                << ",\"got\":" << (hit ? ent.getScore(q) : 0) << "}\n";
             n++;
         }
